@@ -189,3 +189,49 @@ def neg_dim(run):
         run.count("neg_dim.outcome", impl[0])
         run.corr("neg_dim_py(translator)", [d, shape, nd], impl, parse_sx(a))
     run.sample({"stream": "neg_dim", "case": [-1, [4, 5, 6], None], "model": drv.ask(sx("c18.neg_dim", -1, [4, 5, 6], None))})
+
+
+def translator_selftest(run):
+    """harness/py2lean.py on its own: fixed functions (c18_selftest_funcs.py) covering every construct of the translated
+    subset — floor division / modulo with negative and zero divisors, max/min, chained comparisons, None-able names,
+    guarded divisions inside conditions, loops with several accumulators incl. a list written inside the loop — translated
+    on this run and compared with CPython on grids (values and exception classes)."""
+    import itertools
+    import c18_selftest_funcs as F
+
+    drv = run._drv
+    rng = run.rng
+
+    def py(f, *args):
+        try:
+            r = f(*args)
+        except Exception as e:
+            return ["err", type(e).__name__]
+        if isinstance(r, tuple):
+            return ["ok"] + list(r)
+        if isinstance(r, list):
+            return ["ok", r]
+        return ["ok", r]
+
+    vals = list(range(-7, 8))
+    reqs, exps = [], []
+    for a, b in itertools.product(vals, vals):
+        reqs.append(sx("c18.st_divmod", a, b)); exps.append(py(F.st_divmod, a, b))
+        reqs.append(sx("c18.st_guard", a, b)); exps.append(py(F.st_guard, a, b))
+    for x, lo, hi in itertools.product(range(-4, 5), repeat=3):
+        reqs.append(sx("c18.st_clamp", x, lo, hi)); exps.append(py(F.st_clamp, x, lo, hi))
+    for x in [None] + vals:
+        for d in vals:
+            reqs.append(sx("c18.st_opt", x, d)); exps.append(py(F.st_opt, x, d))
+    for _ in range(2000 if run.tier == "quick" else 40000):
+        xs = [rng.randint(-3, 9) for _ in range(rng.randint(0, 6))]
+        k = rng.randint(-3, 3)
+        reqs.append(sx("c18.st_loop", xs, k)); exps.append(py(F.st_loop, xs, k))
+    for _ in range(500):
+        a = rng.randint(-10 ** 30, 10 ** 30); b = rng.randint(-10 ** 15, 10 ** 15)
+        reqs.append(sx("c18.st_divmod", a, b)); exps.append(py(F.st_divmod, a, b))
+    answers = drv.ask_many(reqs)
+    for req, exp, ans in zip(reqs, exps, answers):
+        run.case(("selftest", req), nontrivial=False)
+        run.count("selftest.outcome", exp[1] if exp[0] == "err" else "ok")
+        run.corr("translator_selftest", req, exp, parse_sx(ans))
